@@ -25,7 +25,8 @@ pub const RULE: &str = "textures whose texels encode (region id, x, y): owned Bu
 surplus) onto a poisoned atlas; sizes 2^a x 2^b (a,b<=6, all three samplers) or any 1..17 x 1..17 (clamp and once). Coordinates per axis from a class mixture \
 (exact integers in +-4*size, k+-1e-6, k+-ulp, k+-0.5, uniform, +-2^23..2^31 boundary values, beyond 2^31, +-0, subnormals, +-inf, NaN, arbitrary bit patterns), \
 handed to sample_abs or, divided by the size, to sample. Sub-checks: proptest mixture (samplers), in-range mixture for SamplerOnce (once-in-range), a fixed battery of \
-special values on every texture shape (special-values), every integer in +-2^12 (thorough +-2^20) with +-1 ulp on each axis and the diagonal (integer-ulp-sweep). \
+special values on every texture shape (special-values), owned textures with a side of 2^24, 2^25, 2^26, 2^24+1, 2^24+3 or 2^25+2 texels and coordinates around the far end, \
+multiples of the size and the float extremes (huge), every integer in +-2^12 (thorough +-2^20) with +-1 ulp on each axis and the diagonal (integer-ulp-sweep). \
 Non-trivial = at least one effective coordinate outside [0,size) or exactly integral; distinct by (texture spec, coordinate bits, entry point).";
 
 const REGION: u32 = 0x7E57;
@@ -881,6 +882,169 @@ fn integer_ulp_sweep(cx: &mut Ctx) {
     });
 }
 
+// ------------------------------------------------------------------ huge textures (sizes at and above 2^24, where f32 arithmetic on the size stops being exact)
+
+/// (width, height) of the huge test textures; one axis is 1 or 2 so that they stay affordable (u8 texels).
+const HUGE: &[(u32, u32)] = &[
+    (1 << 24, 1),
+    (1 << 25, 1),
+    (1, 1 << 25),
+    (1 << 26, 1),
+    (2, 1 << 24),
+    ((1 << 24) + 1, 1),
+    (1, (1 << 24) + 3),
+    ((1 << 25) + 2, 1),
+];
+
+#[inline]
+fn huge_texel(x: u32, y: u32) -> u8 {
+    ((x.wrapping_mul(0x9E37_79B1) ^ y.wrapping_mul(0x85EB_CA6B)) >> 24) as u8
+}
+
+fn huge_textures() -> &'static Vec<Texture<Buf2<u8>>> {
+    static T: std::sync::OnceLock<Vec<Texture<Buf2<u8>>>> = std::sync::OnceLock::new();
+    T.get_or_init(|| {
+        HUGE.iter()
+            .map(|&(w, h)| {
+                let mut d = Vec::with_capacity(w as usize * h as usize);
+                for y in 0..h {
+                    for x in 0..w {
+                        d.push(huge_texel(x, y));
+                    }
+                }
+                Texture::from(Buf2::new_from((w, h), d))
+            })
+            .collect()
+    })
+}
+
+#[derive(Clone, Debug, Serialize, Deserialize)]
+pub struct HugeCase {
+    /// index into HUGE
+    pub tex: u8,
+    pub u: X,
+    pub v: X,
+    pub relative: bool,
+}
+
+fn huge_coord(n: u32) -> BoxedStrategy<f32> {
+    let nf = n as f64;
+    if n <= 2 {
+        return prop_oneof![3 => Just(0.0f32), 2 => Just(0.5f32), 1 => Just(1.0f32), 1 => Just(1.5f32), 1 => -4.0f32..4.0, 1 => Just(-0.0f32)].boxed();
+    }
+    prop_oneof![
+        4 => (0.0f64..1.0).prop_map(move |t| (t * nf) as f32),
+        3 => (-40i64..=40).prop_map(move |k| (nf + k as f64) as f32),
+        2 => ((-3i64..=3), (-40i64..=40)).prop_map(move |(m, k)| (m as f64 * nf + k as f64) as f32),
+        2 => (-1.0f64..3.0).prop_map(move |t| (t * nf) as f32),
+        2 => (-64i64..=64).prop_map(|k| k as f32 * 0.5),
+        1 => ((0u32..24), any::<bool>()).prop_map(|(e, s)| { let m = (1u64 << (e + 8)) as f32; if s { -m } else { m } }),
+        1 => prop_oneof![Just(f32::INFINITY), Just(f32::NEG_INFINITY), Just(f32::NAN), Just(f32::MAX), Just(f32::MIN), Just(2147483648.0f32), Just(-2147483648.0f32), Just(2147483520.0f32), Just(4294967296.0f32)],
+        1 => any::<u32>().prop_map(f32::from_bits),
+    ]
+    .boxed()
+}
+
+fn huge_case() -> BoxedStrategy<HugeCase> {
+    (0..HUGE.len(), any::<bool>())
+        .prop_flat_map(|(i, relative)| {
+            let (w, h) = HUGE[i];
+            (Just(i), huge_coord(w), huge_coord(h), Just(relative))
+        })
+        .prop_map(|(i, u, v, relative)| {
+            let (w, h) = HUGE[i];
+            // relative coordinates: divide by the size so that the product lands near the intended absolute value
+            let (u, v) = if relative { (u / w as f32, v / h as f32) } else { (u, v) };
+            HugeCase { tex: i as u8, u: X(u), v: X(v), relative }
+        })
+        .boxed()
+}
+
+/// floor(c) mod n for finite |c| < 2^31 (exact integers)
+fn huge_repeat(c: f32, n: u32) -> Option<u32> {
+    (c.is_finite() && c.abs() < TWO31).then(|| (c as f64).floor().rem_euclid(n as f64) as u32)
+}
+
+fn huge_clamp(c: f32, n: u32) -> Option<u32> {
+    (!c.is_nan()).then(|| (c as f64).floor().clamp(0.0, (n - 1) as f64) as u32)
+}
+
+pub fn check_huge(c: &HugeCase, obs: &mut Obs) -> Check {
+    ensure!((c.tex as usize) < HUGE.len(), "bad-case", "texture index out of range");
+    let (w, h) = HUGE[c.tex as usize];
+    let tex = &huge_textures()[c.tex as usize];
+    let (u, v, relative) = (c.u.0, c.v.0, c.relative);
+    let (wf, hf) = (w as f32, h as f32);
+    let (pu, pv) = if relative { (wf * u, hf * v) } else { (u, v) };
+    let tc = uv(u, v);
+    let what = |s: &str| {
+        if relative {
+            format!("{s}::sample(uv({u:?}, {v:?})) [= absolute ({pu:?}, {pv:?})] on an owned {w}x{h} texture")
+        } else {
+            format!("{s}::sample_abs(uv({u:?}, {v:?})) on an owned {w}x{h} texture")
+        }
+    };
+    let pot = w.is_power_of_two() && h.is_power_of_two();
+    obs.class(if pot { "huge:power-of-two" } else { "huge:size not representable in f32" });
+    obs.class(if w.max(h) > 1 << 24 { "huge:long side > 2^24" } else { "huge:long side = 2^24" });
+    let long = if w >= h { pu } else { pv };
+    let n = w.max(h);
+    obs.class(if long.is_nan() {
+        "huge-coord:NaN"
+    } else if long < 0.0 {
+        "huge-coord:negative"
+    } else if (long as f64) < n as f64 - 64.0 {
+        "huge-coord:inside"
+    } else if (long as f64) < n as f64 {
+        "huge-coord:last 64 texels"
+    } else if (long as f64) < n as f64 + 64.0 {
+        "huge-coord:first 64 past the end"
+    } else {
+        "huge-coord:beyond"
+    });
+    if pot {
+        let s = match catch(|| SamplerRepeatPot::new(tex)) {
+            Ok(s) => s,
+            Err(p) => fail!("repeat-new-panic", "SamplerRepeatPot::new panicked on a {w}x{h} (power-of-two) texture: {p}"),
+        };
+        let got = match catch(|| if relative { s.sample(tex, tc) } else { s.sample_abs(tex, tc) }) {
+            Ok(t) => t,
+            Err(p) => fail!("repeat-panic", "{} panicked: {p}", what("SamplerRepeatPot")),
+        };
+        if let (Some(x), Some(y)) = (huge_repeat(pu, w), huge_repeat(pv, h)) {
+            ensure!(got == huge_texel(x, y), "repeat-wrong-texel", "{} returned value {got} but (floor(u) mod {w}, floor(v) mod {h}) = ({x},{y}) holds {}", what("SamplerRepeatPot"), huge_texel(x, y));
+        }
+    }
+    {
+        let s = SamplerClamp;
+        let got = match catch(|| if relative { s.sample(tex, tc) } else { s.sample_abs(tex, tc) }) {
+            Ok(t) => t,
+            Err(p) => fail!("clamp-panic", "{} panicked: {p}", what("SamplerClamp")),
+        };
+        if let (Some(x), Some(y)) = (huge_clamp(pu, w), huge_clamp(pv, h)) {
+            ensure!(got == huge_texel(x, y), "clamp-wrong-texel", "{} returned value {got} but the coordinate clamped to the texture is texel ({x},{y}) holding {}", what("SamplerClamp"), huge_texel(x, y));
+        }
+    }
+    let in_range = if relative { u >= 0.0 && u < 1.0 && v >= 0.0 && v < 1.0 } else { true } && pu >= 0.0 && (pu as f64) < w as f64 && pv >= 0.0 && (pv as f64) < h as f64;
+    if in_range {
+        let s = SamplerOnce;
+        let got = match catch(|| if relative { s.sample(tex, tc) } else { s.sample_abs(tex, tc) }) {
+            Ok(t) => t,
+            Err(p) => fail!("once-panic-in-range", "{} panicked although the coordinate is in range: {p}", what("SamplerOnce")),
+        };
+        let (x, y) = ((pu as f64).floor() as u32, (pv as f64).floor() as u32);
+        ensure!(got == huge_texel(x, y), "once-wrong-texel", "{} returned value {got} but the in-range coordinate addresses texel ({x},{y}) holding {}", what("SamplerOnce"), huge_texel(x, y));
+        obs.class("huge:once checked");
+    }
+    if !(long >= 0.0 && (long as f64) < n as f64 - 64.0) {
+        obs.nontrivial(hash_of(&(c.tex, c.u.0.to_bits(), c.v.0.to_bits(), c.relative)));
+    }
+    if obs.wants_sample() {
+        obs.sample(|| json!({"texture": [w, h], "u": format!("{u:?}"), "v": format!("{v:?}"), "relative": relative}));
+    }
+    Ok(())
+}
+
 // ------------------------------------------------------------------ entry points
 
 pub fn run(cx: &mut Ctx) {
@@ -895,6 +1059,9 @@ pub fn run(cx: &mut Ctx) {
     cx.prop_check("once-in-range", n, once_case, |c, obs| check_case(c, obs));
     special_values(cx);
     integer_ulp_sweep(cx);
+    cx.assume("huge textures (a side of 2^24 .. 2^26+): owned, u8 texels holding a hash of their position (a wrong texel is missed with probability 1/256 per sample); for sizes that f32 cannot represent the relative entry points are compared against the f32 product with the size rounded to f32, as the library documents");
+    let n = cx.n(300_000, 6_000_000);
+    cx.prop_check("huge", n, huge_case, |c, obs| check_huge(c, obs));
     let calls: u64 = cx.subs.iter().map(|s| s.obs.classes.get("sampler-calls").copied().unwrap_or(0)).sum();
     cx.extra.insert("sampler_calls".into(), json!(calls));
 }
@@ -906,6 +1073,10 @@ pub fn replay(sub: &str, case: &Value) -> Check {
         "samplers" | "once-in-range" | "special-values" | "integer-ulp-sweep" => {
             let c: SampleCase = serde_json::from_value(case.clone()).map_err(|e| Fail::new("bad-replay", e.to_string()))?;
             check_case(&c, &mut obs)
+        }
+        "huge" => {
+            let c: HugeCase = serde_json::from_value(case.clone()).map_err(|e| Fail::new("bad-replay", e.to_string()))?;
+            check_huge(&c, &mut obs)
         }
         _ => Err(Fail::new("bad-replay", format!("unknown subcheck {sub}"))),
     }
